@@ -37,8 +37,9 @@ RULE = ('every (pattern, edit sequence) is written as rule text and read; '
         'with at least one match')
 ASSUMPTIONS = ['charge edits and atom-type edits are not judged (the balance '
                'clause speaks of bond and radical edits)',
-               'radical := n is judged only on atoms whose pattern fixes the '
-               'radical count at 0',
+               'radical := n is judged on atoms whose pattern fixes the radical '
+               'count (no suffix or `.`) and whose count no earlier edit of the '
+               'sequence changed',
                'sequences that are ill defined on the evolving pattern (break '
                'of a bond whose order was changed before, increase of a '
                'non-bond, ...) are enumerated but not judged',
